@@ -144,7 +144,10 @@ def spline(potential_forms, potential_form_builder):
   pot2 = pform.next._replace(next = None)
 
   allowed_spline_types = [s.spline_keyword for s in spline_factories]
-  pot2_label = getattr(pot2, 'potential_form', getattr(pot2, 'modifier', None))
+  # the spline part is a bare keyword: 'exp_spline(...)' written as a modifier call is not one
+  pot2_label = getattr(pot2, 'potential_form', None)
+  if pot2_label is None:
+    pot2_label = "{}(...)".format(getattr(pot2, 'modifier', None))
   if not pot2_label in allowed_spline_types:
     allowed_spline_types_str = ["'{}'".format(t) for t in allowed_spline_types]
     allowed_spline_types_str = ",".join(allowed_spline_types_str)
